@@ -365,6 +365,25 @@ func runC14(w *World, r *Report) {
 		r.Check(byKey >= 2, "C14.map-order", "concatMaps writes results by key", cm.Pos(), fmt.Sprintf("%d SetMapIndex writes", byKey), "map concatenation no longer writes by key")
 	}
 
+	// ---- registry-first: a registered concat function decides for its type whatever the type's kind
+	r.Rule("C14.registry-first", "the built-in key-wise map merge (concatMaps) is entered only where the registry was asked for the chunk type and had nothing: a function registered for a named map type is what concatenates its chunks, as for every other kind", 2)
+	{
+		cm := w.Fn("internal", "concatMaps")
+		gcf := w.Fn("internal", "GetConcatFunc")
+		for _, c := range w.staticCallers(cm) {
+			if !w.inRepo(c.Parent()) {
+				continue
+			}
+			asked := hasGuard(c.Block(), func(g guard) bool {
+				return guardIsNil(g, func(v ssa.Value) bool {
+					cc, ok := v.(*ssa.Call)
+					return ok && isCallTo(cc, gcf)
+				})
+			})
+			r.Check(asked, "C14.registry-first", fmt.Sprintf("%s enters concatMaps", c.Parent().Name()), c.Pos(), "under GetConcatFunc(type) == nil", "the dispatch tests Kind() == reflect.Map before the registry: a function registered with RegisterStreamChunkConcatFunc for a named map type (type counters map[string]int) is never called — its chunks are merged key-wise by the built-in rules (or fail 'cannot concat multiple non-zero value' for values those rules cannot merge)")
+		}
+	}
+
 	// ---- group-key-local: which group a tool-call fragment joins depends on the fragment alone
 	r.Rule("C14.group-key-local", "concatToolCalls: the group key of a fragment is read from that fragment (chunks[i].Index), never from loop-carried state (arrival order)", 1)
 	{
